@@ -184,7 +184,7 @@ func c17Bundle(r *vp.InstResult) {
 
 type methodOpts struct {
 	quorumcall, async, correctable, multicast, unicast, perNode bool
-	custom                                                    string
+	custom                                                      string
 }
 
 func optsOf(m *descriptorpb.MethodDescriptorProto) methodOpts {
@@ -557,7 +557,7 @@ func firstLine(s string) string {
 
 func init() {
 	checks["C17"] = &check{
-		rule: "for every directory with committed *_gorums.pb.go files (dev in dev mode, benchmark, tests/*, examples): the package's proto descriptor is recovered from its .pb.go, the plugin built from the working tree regenerates the files and each is compared with the committed one as comment-free ASTs; template_static.go is compared with a fresh bundle of the static sources; for every method of every such service, in the committed and in the regenerated code, the client stub's method literal, the RegisterHandler literal and impl call, the runtime entry point, the receiver type, the per-node function and the ServerStream flag are compared with the descriptor and its options; the same binding analysis runs on freshly generated stubs of synthesised services (3 service spellings x 8 method spellings x 9 call variants) whose identifiers are not Go CamelCase; states = files / methods compared",
+		rule:        "for every directory with committed *_gorums.pb.go files (dev in dev mode, benchmark, tests/*, examples): the package's proto descriptor is recovered from its .pb.go, the plugin built from the working tree regenerates the files and each is compared with the committed one as comment-free ASTs; template_static.go is compared with a fresh bundle of the static sources; for every method of every such service, in the committed and in the regenerated code, the client stub's method literal, the RegisterHandler literal and impl call, the runtime entry point, the receiver type, the per-node function and the ServerStream flag are compared with the descriptor and its options; the same binding analysis runs on freshly generated stubs of synthesised services (3 service spellings x 8 method spellings x 9 call variants) whose identifiers are not Go CamelCase; states = files / methods compared",
 		assumptions: []string{"the descriptor embedded in the committed .pb.go is the package's proto definition (protoc is not installed)", "dynamic binding (every generated zorums call variant executed against puppet servers) is the harness half of this check"},
 		gen: func(tier string) []instance {
 			dirs, err := findGenDirs()
